@@ -40,6 +40,7 @@ def vacuum_exception(ctx, fi, st, par):
                         t = src(s.test).replace(" ", "")
                         if t.startswith("sum(") and "[:circuit.n_modes]" in t and t.endswith("==0"):
                             writes_same = any(isinstance(x, (ast.Assign, ast.AugAssign)) and isinstance((x.targets[0] if isinstance(x, ast.Assign) else x.target), ast.Subscript) and src((x.targets[0] if isinstance(x, ast.Assign) else x.target).value) == src(st.targets[0].value) for x in ast.walk(lp))
+                            writes_same = writes_same or any(isinstance(x, ast.Call) and any(src(a_) == src(st.targets[0].value) for a_ in x.args) for x in ast.walk(lp))
                             if writes_same:
                                 return None
         p = q
@@ -74,7 +75,9 @@ def check(ctx) -> Result:
     res.assumptions = ["State/tuple/list constructors are injective on their argument", "fock_basis returns distinct outputs"]
     b = ctx.func(BACKEND, "Backend.full_probability_distribution")
     exc = {"1 - total_prob": ("vacuum key cannot be present: the insertion loop skips photon-less outputs", vacuum_exception)}
-    n = rg_mass.check_function(ctx, res, b, exceptions=exc)
+    from ..inline import with_helpers
+    bh = with_helpers(ctx, b, inline_locals=False)
+    n = rg_mass.check_function(ctx, res, bh, exceptions=exc)
     n += rg_mass.check_function(ctx, res, ctx.func(PDIST, "pdist_calc"))
     n += rg_mass.check_function(ctx, res, ctx.func(PDIST, "annotated_state_pdist_calc"), exceptions={
         "unique_results[in_state[": ("the prefix slice is the identity on states built with that very length; the table maps each distinct input to its own distribution", identity_slice_exception)})
@@ -82,10 +85,10 @@ def check(ctx) -> Result:
     n += rg_mass.check_function(ctx, res, ctx.func(SLOS, "a_i_dagger"))
     n += rg_mass.check_function(ctx, res, ctx.func(SLOS, "add_dicts"))
     res.floor("G subscript stores", n, 12)
-    g2 = rg_mass.g2_remainder_guard(ctx, res, b) + rg_mass.g2_remainder_guard(ctx, res, ctx.func(PDIST, "pdist_calc"))
+    g2 = rg_mass.g2_remainder_guard(ctx, res, bh) + rg_mass.g2_remainder_guard(ctx, res, ctx.func(PDIST, "pdist_calc"))
     res.floor("G2 remainder stores", g2, 2)
     # ---- sibling agreement of the two backend branches
-    chain = [n_ for n_ in walk_no_nested(b.node) if isinstance(n_, ast.If) and "self.backend ==" in src(n_.test)]
+    chain = [n_ for n_ in walk_no_nested(bh.node) if isinstance(n_, ast.If) and "self.backend ==" in src(n_.test)]
     branches = {}
     for n_ in chain:
         t = src(n_.test)
@@ -107,6 +110,7 @@ def check(ctx) -> Result:
 
     def facts(body):
         pads = [src(s) for s in body if isinstance(s, ast.If) and "loss_modes" in src(s.test) and any(isinstance(x, ast.Assign) and isinstance(x.targets[0], ast.Name) for x in s.body)]
+        pads += [src(s) for s in body if isinstance(s, ast.Assign) and isinstance(s.value, ast.IfExp) and "loss_modes" in src(s.value.test)]
         cmps = []
         stores = []
         slices = []
@@ -139,7 +143,7 @@ def check(ctx) -> Result:
     rw_layering.who_may_call(ctx, res, {"perm"}, {"Permanent.calculate"}, "W-permanent-owner", "the permanent is normalised by the factorials of *all* input and output occupations in one place", 1)
     rw_layering.who_may_call(ctx, res, {"partition"}, {"Permanent.calculate"}, "W-permanent-owner", "sub-matrix selection belongs to Permanent.calculate", 1)
     rw_layering.who_may_read_attr(ctx, res, "sampler_probability_threshold", {"Backend.full_probability_distribution", "QuickSampler._calculate_probabiltiies"}, "W-truncation-sites",
-                                  "the per-state truncation applies to output-state probabilities only (amplitudes below it can still interfere)", 3)
+                                  "the per-state truncation applies to output-state probabilities only (amplitudes below it can still interfere)", 2)
     amp_src = {"permanent": "Permanent.calculate", "slos": "SLOS.calculate"}
     for name, body in branches.items():
         callee = [c for s_ in body for c in ast.walk(s_) if isinstance(c, ast.Call) and src(c.func) == amp_src[name]]
